@@ -369,6 +369,11 @@ def subsequence3R {α : Type} (xs : List α) (s l : D) : List α :=
 def sumAgrees (s : Seq) : Bool := decide (pySum.sumD (s.map toDouble) = foSum.sumD (s.map toDouble))
 def avgAgrees (s : Seq) : Bool := decide (pySum.avgD s = foSum.avgD s)
 
+/-- trigger of finding F08t: an xs:integer outside the range of xs:double has to be promoted
+(the specification promotes it to ±INF; `float(int)` raises OverflowError) -/
+def hugeIntPromoted (s : Seq) : Bool :=
+  anyDouble s && s.any fun a => match a with | .int n => decide (n.natAbs ≥ 2 ^ 1024) | _ => false
+
 def applyFn1 (sm : Summation) (doc : List String) (f : Fn1) (v : Seq) : R :=
   match f with
   | .count => .ok [.int (count v)]
